@@ -239,7 +239,11 @@ func registerOverrides(e *Engine) {
 			}
 			name = "?"
 		}
-		in.sch.schedLog = append(in.sch.schedLog, name+":"+in.str(a[0]))
+		pt := in.str(a[0])
+		in.sch.schedLog = append(in.sch.schedLog, name+":"+pt)
+		if strings.HasPrefix(pt, "m:") {
+			in.sch.cur.afterGate = true
+		}
 		return nil
 	})
 	e.reg(zz+"Go", func(in *interp, fr *frame, a []value) value {
